@@ -169,6 +169,17 @@ Proof.
   unfold sLTLT, sBN. now rewrite !starts_with_hd_ne.
 Qed.
 
+Lemma wf_obj_not_qt : forall o, wf_obj o = true -> starts_with sLTLT o = false.
+Proof.
+  intros o H. unfold wf_obj in H. apply orb_true_iff in H as [H|H].
+  - apply orb_true_iff in H as [H|H]; [now apply iri_prefix|now apply bnode_prefix].
+  - unfold kind_guess_stable in H. repeat (apply andb_true_iff in H as [H _]). now apply negb_true_iff in H.
+Qed.
+
+(* encode_cleaned_term interns a term that does not start with "<<" verbatim *)
+Lemma ect_plain : forall v, starts_with sLTLT v = false -> ect v = v.
+Proof. intros v H. unfold ect. now rewrite H. Qed.
+
 Lemma nq_subj_rterm : forall s, wf_subj s = true -> rterm (nq_subj s) s.
 Proof.
   intros s H. unfold wf_subj in H. unfold nq_subj. apply orb_true_iff in H as [H|H].
@@ -290,20 +301,22 @@ Proof.
   - destruct (qd_g q) as [g|]; cbn [option_map]; [|exact I]. now apply nq_graph_rterm.
 Qed.
 
-Lemma nq_load_rendered : forall q, wf_quad q = true -> known_dd_quad q = false ->
-  nq_load_line (nq_core q ++ [cSP; cDOT]) = [q].
+Lemma nq_load_rendered : forall q, wf_quad q = true -> nq_load_line (nq_core q ++ [cSP; cDOT]) = [q].
 Proof.
-  intros q Hwf Hdd. destruct (wf_quad_rterms q Hwf) as (HS & HP & HO & HG).
+  intros q Hwf. destruct (wf_quad_rterms q Hwf) as (HS & HP & HO & HG).
   destruct (line_prefix _ _ _ _ _ _ _ _ HS HP HO HG) as (H1 & H2 & H3 & H4). fold (nq_core q) in *.
   unfold nq_load_line. rewrite H1, H2, H3, H4.
   unfold nq_parse_line, nq_core. rewrite (core_parts _ _ _ _ _ _ _ _ HS HP HO HG).
-  unfold known_dd_quad in Hdd. apply orb_false_iff in Hdd as [Hdd Hdo]. apply orb_false_iff in Hdd as [Hds Hdp].
   unfold wf_quad in Hwf. repeat (apply andb_true_iff in Hwf as [Hwf ?]).
   rewrite (clean_nt_rterm _ _ HS), (clean_nt_rterm _ _ HP), (clean_nt_rterm _ _ HO).
+  assert (Es : ect (qd_s q) = qd_s q).
+  { apply ect_plain. unfold wf_subj in Hwf. apply orb_true_iff in Hwf as [Hw|Hw]; [now apply iri_prefix|now apply bnode_prefix]. }
+  assert (Ep : ect (qd_p q) = qd_p q) by (apply ect_plain; now apply iri_prefix).
+  assert (Eo : ect (qd_o q) = qd_o q) by (apply ect_plain; now apply wf_obj_not_qt).
   destruct q as [[[s p] o] g]. unfold qd_s, qd_p, qd_o, qd_g in *. cbn [fst snd] in *.
   destruct g as [g|]; cbn [option_map] in *.
-  - rewrite (clean_nt_rterm _ _ HG). now rewrite ets_subj, ets_iri, ets_obj by assumption.
-  - now rewrite ets_subj, ets_iri, ets_obj by assumption.
+  - rewrite (clean_nt_rterm _ _ HG). now rewrite Es, Ep, Eo.
+  - now rewrite Es, Ep, Eo.
 Qed.
 
 Lemma flat_map_id : forall {A} (f : str -> list A) (body : A -> str) (db : list A),
@@ -313,20 +326,16 @@ Proof.
   cbn [map flat_map]. rewrite H by now left. cbn [app]. f_equal. apply IH. intros; apply H; now right.
 Qed.
 
-Lemma nq_roundtrip_list : forall db, wf_db db = true -> known_dd db = false -> load_nq (gen_nq db) = db.
+Lemma nq_roundtrip_list : forall db, wf_db db = true -> load_nq (gen_nq db) = db.
 Proof.
-  intros db Hwf Hdd. unfold load_nq, gen_nq.
+  intros db Hwf. unfold load_nq, gen_nq.
   rewrite (flat_map_ext _ (fun q => (nq_core q ++ [cSP; cDOT]) ++ [cLF])) by (intro; apply nq_line_core).
   unfold wf_db in Hwf. rewrite forallb_forall in Hwf.
-  assert (Hk : forall q, In q db -> known_dd_quad q = false).
-  { intros q Hq. unfold known_dd in Hdd. destruct (known_dd_quad q) eqn:E; [|reflexivity].
-    assert (existsb known_dd_quad db = true) by (apply existsb_exists; now exists q). congruence. }
   rewrite lines_flat_map.
   - apply flat_map_id. intros q Hq. apply nq_load_rendered; auto.
   - intros q Hq. destruct (wf_quad_rterms q (Hwf q Hq)) as (HS & HP & HO & HG).
     unfold nq_core. now apply (core_no_lf _ _ _ _ _ _ _ _ HS HP HO HG).
 Qed.
 
-Lemma nq_roundtrip : forall db, wf_db db = true -> known_dd db = false -> same_set (load_nq (gen_nq db)) db.
-Proof. intros db H1 H2 q. now rewrite nq_roundtrip_list. Qed.
-
+Lemma nq_roundtrip : forall db, wf_db db = true -> same_set (load_nq (gen_nq db)) db.
+Proof. intros db H1 q. now rewrite nq_roundtrip_list. Qed.
